@@ -87,6 +87,9 @@ Additions for data.py (ScreenSubset / Plate / the view-producing methods of Scre
                       the expression is refused (it never falls through to the structural translation)
   [f(x) for x in L]   where f may raise and there is no condition that may raise: res_map_all (Lib/Sexp.v), f evaluated
                       element by element from the left, the first exception aborts
+  cfg["decorators"]   extra decorators accepted on the function besides property / classmethod / staticmethod / abstractmethod (any other
+                      decorator, a second definition of the name in its scope, a module-level rebinding, or an untranslated override in a
+                      subclass of the same file is refused: see find_function); cfg["overrides_ok"] = subclasses whose override is harmless
   cfg["inherits"]     [(subclass, base, [method names])]: checked, not translated - the class `subclass` has the single
                       base `base` and defines none of the named methods itself, so that calling them on (constructing) a
                       `subclass` runs the translated methods of `base`; anything else is refused
@@ -2609,16 +2612,69 @@ class Tr:
         return "Definition %s %s : %s %s :=\n%s%s." % (cfg["name"], " ".join(params), self.M["type"], rtype, pre, body.rstrip("\n"))
 
 
-def find_function(tree, name, cls=None):
-    for node in ast.walk(tree):
-        if cls is not None:
-            if isinstance(node, ast.ClassDef) and node.name == cls:
-                for n in node.body:
-                    if isinstance(n, ast.FunctionDef) and n.name == name:
-                        return n
-        elif isinstance(node, ast.FunctionDef) and node.name == name:
-            return node
-    raise Unsupported("function %s not found" % name)
+ALLOWED_DECORATORS = ("property", "classmethod", "staticmethod", "abstractmethod", "abc.abstractmethod")
+TRANSLATED = set()     # (file, class or None, function) of every configuration of this run (set by harness/gen_consts.py)
+
+
+def find_function(tree, name, cls=None, cfg=None):
+    """the ONE definition of the function: Python runs the LAST `def` of a name in a scope, through its decorators, and a subclass
+    or a later assignment may replace it - each of these would make the translated text something other than what runs, so each is
+    refused: a second definition of the name in the same scope, a decorator outside ALLOWED_DECORATORS + cfg["decorators"]
+    (`@x.setter` of the same name counts as a second definition), an assignment `Class.name = ...` / `name = ...` at module level,
+    and (for a method) a class of this file deriving from `cls` that defines `name`, unless that override is itself translated
+    (TRANSLATED) or listed in cfg["overrides_ok"]."""
+    cfg = cfg or {}
+    found = []
+    if cls is not None:
+        classes = [n for n in ast.walk(tree) if isinstance(n, ast.ClassDef) and n.name == cls]
+        if len(classes) > 1:
+            raise Unsupported("class %s is defined %d times" % (cls, len(classes)))
+        for c in classes:
+            found = [n for n in c.body if isinstance(n, (ast.FunctionDef, ast.AsyncFunctionDef)) and n.name == name]
+            for n in c.body:
+                if isinstance(n, (ast.Assign, ast.AnnAssign)):
+                    tg = n.targets if isinstance(n, ast.Assign) else [n.target]
+                    if any(isinstance(t, ast.Name) and t.id == name for t in tg):
+                        raise Unsupported("%s.%s is also assigned in the class body" % (cls, name))
+    else:
+        found = [n for n in tree.body if isinstance(n, (ast.FunctionDef, ast.AsyncFunctionDef)) and n.name == name]
+        if not found:
+            found = [n for n in ast.walk(tree) if isinstance(n, ast.FunctionDef) and n.name == name]
+    if not found:
+        raise Unsupported("function %s not found" % name)
+    if len(found) > 1:
+        raise Unsupported("%s%s is defined %d times (the last definition is the one that runs)" % ((cls + ".") if cls else "", name, len(found)))
+    f = found[0]
+    if isinstance(f, ast.AsyncFunctionDef):
+        raise Unsupported("async function")
+    allowed = set(ALLOWED_DECORATORS) | set(cfg.get("decorators", []))
+    for d in f.decorator_list:
+        if ast.unparse(d) not in allowed:
+            raise Unsupported("decorator @%s on %s (what runs is the decorated function, not this body)" % (ast.unparse(d)[:60], name))
+    for n in tree.body:      # module-level rebinding
+        if isinstance(n, (ast.Assign, ast.AugAssign, ast.AnnAssign)):
+            tg = n.targets if isinstance(n, ast.Assign) else [n.target]
+            for t in tg:
+                if cls is not None and isinstance(t, ast.Attribute) and isinstance(t.value, ast.Name) and t.value.id == cls and t.attr == name:
+                    raise Unsupported("%s.%s is rebound at module level" % (cls, name))
+                if cls is None and isinstance(t, ast.Name) and t.id == name:
+                    raise Unsupported("%s is rebound at module level" % name)
+    if cls is not None:
+        # overrides in classes of this file that derive (transitively) from cls
+        derived, grew = {cls}, True
+        klasses = [n for n in ast.walk(tree) if isinstance(n, ast.ClassDef)]
+        while grew:
+            grew = False
+            for c in klasses:
+                if c.name not in derived and any(ast.unparse(b).split(".")[-1] in derived for b in c.bases):
+                    derived.add(c.name)
+                    grew = True
+        for c in klasses:
+            if c.name != cls and c.name in derived and any(isinstance(n, ast.FunctionDef) and n.name == name for n in c.body):
+                if c.name in cfg.get("overrides_ok", []) or (cfg.get("file"), c.name, name) in TRANSLATED:
+                    continue
+                raise Unsupported("%s.%s is overridden in the subclass %s, which is not translated (objects of that class run the override)" % (cls, name, c.name))
+    return f
 
 
 SUFFIX = "'"   # every Python identifier is emitted with this suffix, so it cannot capture a Coq name
@@ -2816,7 +2872,7 @@ def translate(source_text, cfg):
     tree = ast.parse(source_text)
     check_inherits(tree, cfg)
     check_dataclass(tree, cfg)
-    f = find_function(tree, cfg["func"], cfg.get("cls"))
+    f = find_function(tree, cfg["func"], cfg.get("cls"), cfg)
     if cfg.get("generator"):
         if any(isinstance(n, (ast.YieldFrom, ast.Return)) for n in ast.walk(f)):
             raise Unsupported("generator with `yield from` or `return`")
